@@ -176,6 +176,9 @@ def r2(rep, prog, tab):
     # ... on EVERY path after the state was removed (no early return may skip a cleanup loop)
     for a, ok in sorted(broker.teardown_must_pass(sd, sorted(want)).items()):
         rep.check(ok, "C09-R2", sd.def_, "always-visits:%s" % a, "once the connection was taken out of self.conns every path of shutdown_connection must go through the cleanup of conn.%s(); an early return leaves what the connection owned behind for ever" % a, line=sd.span, detail={})
+    # every affected peer is told once that a service of the departed connection is gone
+    sc_, ok_, ret_ = broker.subscribed_conn_ids_once(prog)
+    rep.check(ok_, "C09-R2", sc_.def_, "each-affected-peer-once", "Service::subscribed_conn_ids must hand out every subscribed connection once (collected in a set): a peer holding several subscriptions of a service of the departed connection would be told ServiceDestroyed several times", detail={"returns": ret_})
     # unconditional helpers
     for h in tab["teardown_calls"]:
         cs_ = [c for c in sd.calls if c.name == h]
